@@ -544,7 +544,13 @@ class StateMachine:
         """
         self.next_state(state)
         # TODO: may want to do this differently?
+        should_engage = self.__should_engage and self.__engaged
         self.execute()
+        # when called from a state function the nested call is part of the
+        # current iteration: unless it stopped the machine it must not use up
+        # the engage() request, otherwise a second next_state_now() in the
+        # same state function ends the run instead of running its state
+        self.__should_engage = should_engage and self.__engaged
 
     def done(self) -> None:
         """Call this function to end execution of the state machine.
